@@ -111,11 +111,20 @@ def _prune_cache(keep, max_entries=160, min_age_s=3600):
     """drop the oldest cached fact sets; never one younger than an hour (a concurrent check may be loading it)"""
     d = os.path.join(CACHE, "facts")
     now = time.time()
-    ents = [os.path.join(d, e) for e in os.listdir(d) if ".tmp" not in e]
-    ents.sort(key=lambda p: os.path.getmtime(p))
+
+    def mtime(p):
+        try:
+            return os.path.getmtime(p)
+        except OSError:          # removed by a concurrent check
+            return None
+    try:
+        ents = [(mtime(os.path.join(d, e)), os.path.join(d, e)) for e in os.listdir(d) if ".tmp" not in e]
+    except OSError:
+        return
+    ents = sorted((m, p) for m, p in ents if m is not None)
     while len(ents) > max_entries:
-        v = ents.pop(0)
-        if v != keep and now - os.path.getmtime(v) > min_age_s:
+        m, v = ents.pop(0)
+        if v != keep and now - m > min_age_s:
             shutil.rmtree(v, ignore_errors=True)
 
 
